@@ -191,9 +191,8 @@ def check(run, F, tier):
             completes = matched
             if mode == "failure" and matched:
                 # exchange ends iff no PUBREL follows: recognised by the release of the id on this path
-                here = lambda e: e[5][0] == f["path"]
-                completes = bool([1 for _, e in conn.calls(p, "PacketIdManager::<T>::release_id") if here(e)]) or \
-                    bool([1 for _, e in conn.calls(p, "PacketIdManager::<T>::is_used_id") if here(e) and conn.truth(p, e) is False])
+                completes = bool(conn.calls_outside(p, "PacketIdManager::<T>::release_id")) or \
+                    bool([1 for e in conn.calls_outside(p, "PacketIdManager::<T>::is_used_id") if conn.truth(p, e) is False])
             if not completes:
                 if cw:
                     problems.setdefault("counter changed on a path that does not complete an exchange", p)
@@ -237,20 +236,7 @@ def check(run, F, tier):
     if not problems:
         r2.ok("erase_stored_publish")
     # nobody else decrements / increments
-    others = {}
-    for n, g in ms.items():
-        if n in completion or n in ("erase_stored_publish", "process_send_v5_0_publish", "send_stored", "initialize", "new"):
-            continue
-        for b in g["blocks"]:
-            for st in b["stmts"]:
-                if st["k"] == "assign" and any(isinstance(el, dict) and el.get("n") == CNT and el.get("a") == conn.GC_ADT for el in st["lhs"]["p"]):
-                    others[n] = st.get("line")
-    for g in F.fns.values():
-        if g.get("kind") == "Closure" and g.get("parent", "").startswith(conn.GC) and not g["parent"].endswith("::send_stored"):
-            for b in g["blocks"]:
-                for st in b["stmts"]:
-                    if st["k"] == "assign" and any(isinstance(el, dict) and el.get("n") == CNT for el in st["lhs"]["p"]):
-                        others[g["path"].split("::")[-2]] = st.get("line")
+    others, _w = conn.offending_writers(F, CNT, set(completion) | {"erase_stored_publish", "process_send_v5_0_publish", "send_stored", "initialize", "new"})
     if others:
         r2.violation("other-writers", "publish_send_count is also written by %s" % sorted(others))
     else:
